@@ -137,14 +137,17 @@ def run_fuzz(work, unit, tier, seed):
     for tgt in unit.get("fuzz", []):
         secs = tgt.get("seconds", 60)
         cache = os.path.join(work, "fuzzcache")
-        cmd = [GO, "test", "-vet=off", "-run", "^$", "-fuzz", "^" + tgt["name"] + "$", "-fuzztime", "%ds" % secs,
-               "-test.fuzzcachedir", cache, "-parallel", str(min(NCPU, 16))]
+        cmd = [GO, "test", "-vet=off"]
         if unit.get("overlay"):
-            cmd += overlay_files(work, unit) + ["./" + unit["pkg"]]
+            cmd += overlay_files(work, unit)
             cwd = REPO
         else:
-            cmd += harness_modfile(work) + ["./" + unit["pkg"]]
+            cmd += harness_modfile(work)
             cwd = HARNESS
+        # the package comes before the test-binary flags: go test stops looking for packages at the first
+        # flag it hands through
+        cmd += ["./" + unit["pkg"], "-run", "^$", "-fuzz", "^" + tgt["name"] + "$", "-fuzztime", "%ds" % secs,
+                "-test.fuzzcachedir", cache, "-parallel", str(min(NCPU, 16))]
         env = goenv({"VERIF_OUT": os.path.join(work, "out"), "VERIF_TIER": tier, "VERIF_SEED": str(seed),
                      "VERIF_KNOWN": os.path.join(VERIF, "known_findings.json"), "VERIF_FUZZING": "1"})
         logp = os.path.join(work, "fuzz.%s.log" % tgt["name"])
